@@ -67,6 +67,7 @@ InitH == [ called   |-> {},                       \* ops whose call was invoked
            pout     |-> [p \in Pipes |-> 0],      \* outputs received by the consumer
            pflags   |-> [p \in Pipes |-> {}],     \* "in_closed", "in_end", "in_dropped", "closure_dropped", "stream_dropped", "out_end", "late_event"
            pneed    |-> [op \in Ops |-> [p \in Pipes |-> 0]], \* per call: items of each pipe_in on its object that had been handed over when it was made
+           tsRest   |-> {},                       \* open try_sync calls made on an object at rest on which no other call has been made since
            viol     |-> {} ]
 
 Viol(h, cond, tag) == IF cond THEN [h EXCEPT !.viol = @ \cup {tag}] ELSE h
@@ -96,6 +97,7 @@ SentAndReturned(h, p) == Cardinality({s \in Ops : K(s) = "send" /\ OpTab[s].p = 
 (***************************************************************************)
 ObsCall(h, t, op) ==
   LET h1 == [h EXCEPT !.called = @ \cup {op},
+                      !.tsRest = IF IsOrdered(op) THEN {b \in @ : O(b) # O(op)} ELSE @,
                       !.before[op] = IF IsOrdered(op)
                                       THEN {a \in Ops : a # op /\ IsOrdered(a) /\ K(a) # "drop_obj" /\ O(a) = O(op) /\ Accepted(h, a)}
                                       ELSE {},
@@ -107,9 +109,23 @@ ObsCall(h, t, op) ==
             ELSE h2
   IN  h3
 
+\* C09: "once an object has no operation queued or in progress try_sync succeeds". An object is at rest when its queue is idle and
+\* empty (`idle`: the queue as it is at the moment of the call), every call made on it has returned, everything accepted has finished,
+\* it is not suspended, has not panicked and feeds no pipe. A try_sync called then, with no other call on the object until it
+\* returns, has nothing to be Busy about (wake-ups of stale wakers are not operations).
+AtRest(h, o, b) == /\ ~HeldByPipe(h, o)
+                   /\ h.susp[o] = 0
+                   /\ h.freed[o] = 0
+                   /\ ~(\E a \in h.panicked : O(a) = o)
+                   /\ \A a \in h.called \ {b} : (IsOrdered(a) /\ O(a) = o) =>
+                          \/ h.rets[a] \notin {0, NoRet}                                                \* refused (Busy, panicked)
+                          \/ Finished(h, a) /\ (h.rets[a] # NoRet \/ K(a) \in {"fdesync", "fsync", "after", "suspend"})
+ObsTryRest(h, op, idle) == IF K(op) = "try_sync" /\ idle /\ AtRest(h, O(op), op) THEN [h EXCEPT !.tsRest = @ \cup {op}] ELSE h
+
 ObsRet(h, t, op, c) ==
   LET st == StackOf(h, t)
-      h1 == SetStack([h EXCEPT !.rets[op] = c], t, IF Len(st) > 0 THEN SubSeq(st, 1, Len(st) - 1) ELSE st)
+      h0 == Viol([h EXCEPT !.tsRest = @ \ {op}], K(op) = "try_sync" /\ c = 1 /\ op \in h.tsRest, "C09:busy-at-rest")
+      h1 == SetStack([h0 EXCEPT !.rets[op] = c], t, IF Len(st) > 0 THEN SubSeq(st, 1, Len(st) - 1) ELSE st)
       \* C04: sync ran its closure exactly once, inside the call, and returned its value
       h2 == Viol(h1, K(op) = "sync" /\ c = 0 /\ ~(h.scnt[op] = 1 /\ op \in h.ended), "C04:sync-ran-once")
       h3 == Viol(h2, K(op) = "sync" /\ c = 3, "C04:value")
